@@ -7,6 +7,6 @@ require (
 	github.com/lib/pq v1.10.9
 )
 
-require github.com/jackc/pgx/v5 v5.4.3 // indirect
+require github.com/jackc/pgx/v5 v5.4.3
 
 replace github.com/jeroenrinzema/psql-wire => /repo
